@@ -100,7 +100,7 @@ impl Plan for MapOr {
 impl Plan for MapMap {
     const THOROUGH_SYM: bool = true;
     fn alphabet() -> Vec<Cmd> {
-        vec![cmd(m2::ADD, 0, 0), cmd(m2::ADD, 0, 1), cmd(m2::RM_MEMBER, 0, 0), cmd(m2::RM_INNER, 0, 0), cmd(m2::RM_OUTER, 0, 0), cmd(m2::ADD, 0, 2), cmd(m2::ADD, 1, 0)]
+        vec![cmd(m2::ADD, 0, 0), cmd(m2::ADD, 0, 1), cmd(m2::RM_MEMBER, 0, 0), cmd(m2::RM_INNER, 0, 0), cmd(m2::RM_OUTER, 0, 0), cmd(m2::ADD, 0, 2), cmd(m2::ADD, 1, 0), cmd(m2::RM_INNER_CTX, 0, 1), cmd(m2::RM_OUTER_CTX, 0, 0)]
     }
     fn n(q: bool, heavy: bool) -> usize {
         if q && heavy {
